@@ -133,6 +133,21 @@ func VerifHarness_C02_ReferenceElement() {
 	default:
 		ref.Reference, want = &dtpb.Reference_MedicinalProductPackagedId{MedicinalProductPackagedId: &dtpb.ReferenceId{Value: id, History: &dtpb.Id{Value: "2"}}}, "MedicinalProductPackaged/"+id+"/_history/2"
 	}
+	// the sibling elements of Reference do not take part in its `reference`: a type given as a URL (logical models,
+	// profiles), as another resource's name or as arbitrary text, and a display
+	switch verifrt.Choose("type", 5) {
+	case 1:
+		ref.Type = &dtpb.Uri{Value: "http://hl7.org/fhir/StructureDefinition/Organization"}
+	case 2:
+		ref.Type = &dtpb.Uri{Value: "Organization"}
+	case 3:
+		ref.Type = &dtpb.Uri{Value: "Patient"}
+	case 4:
+		ref.Type = &dtpb.Uri{Value: verifrt.NondetString("typeText", 2)}
+	}
+	if verifrt.NondetBool("display") {
+		ref.Display = &dtpb.String{Value: "d"}
+	}
 	p := &ppb.Patient{ManagingOrganization: ref}
 	got, err := verifPathOf("Patient", "managingOrganization", "reference").Evaluate(&Context{ExternalConstants: map[string]any{}}, system.Collection{p})
 	if want == "" {
